@@ -230,3 +230,129 @@ Proof.
   split. { unfold view_ok, screen_size, with_rows_pids. cbn [v_sel v_parent s_tids]. rewrite Hsel. exact H3. }
   repeat split.
 Qed.
+
+(* ---------------- Screen.combine = combine_screens ---------------- *)
+Definition res_rows (r : result screen) : result (list row) := dor s <- r; Ok (s_rows s).
+
+Lemma mk_screen_not_uniform rows ar ctrl : forallb (fun r => Nat.eqb (length (r_treats r)) ar) rows = true ->
+  plate_uniform rows = false -> mk_screen rows ar ctrl None None true true = Err 2%Z.
+Proof. intros H1 H2. unfold mk_screen. cbn [negb andb]. rewrite H1, H2. reflexivity. Qed.
+
+(* what a screen built by the constructor without mappings satisfies: the invariants the other theorems of this file ask for *)
+Definition fresh_screen (s : screen) : Prop :=
+  screen_wf s /\ screen_valid s /\ plate_ids_fresh s /\ sample_ids_fresh s.
+
+Lemma mk_screen_fresh rows ar ctrl s : mk_screen rows ar ctrl None None true true = Ok s -> fresh_screen s.
+Proof.
+  intros H. split; [eapply mk_screen_wf; exact H|]. split; [eapply mk_screen_valid; exact H|].
+  destruct (mk_screen_ids_fresh _ _ _ _ _ _ _ _ H) as [A B]. split; [exact A | now apply B].
+Qed.
+
+(* two screens of one arity and control name (true of every pair the wrappers and generators combine: both descend from
+   one screen): Screen.combine answers the constructor's refusal of a mixed plate (tag 2) exactly when [construct] does, and
+   otherwise a fresh screen whose rows are the two row lists one after the other *)
+Theorem src_screen_combine_is_combine_screens : forall a b : pyscreen,
+  screen_valid (snd a) -> screen_valid (snd b) -> s_arity (snd b) = s_arity (snd a) -> s_ctrl (snd b) = s_ctrl (snd a) ->
+  res_rows (src_screen_combine a b) = combine_screens (s_rows (snd a)) (s_rows (snd b)) /\
+  (forall s, src_screen_combine a b = Ok s ->
+     fresh_screen s /\ s_arity s = s_arity (snd a) /\ s_ctrl s = s_ctrl (snd a)).
+Proof.
+  intros [ta a] [tb b]. cbn [snd]. intros [Va _] [Vb _] Har Hc. rewrite src_screen_combine_is_model. cbn [snd].
+  unfold screen_combine, combine_screens, construct. rewrite Hc, name_eqb_refl, Har, Nat.eqb_refl. cbn [negb].
+  assert (HA : forallb (fun r => Nat.eqb (length (r_treats r)) (s_arity a)) (s_rows a ++ s_rows b) = true).
+  { rewrite forallb_app, Va. rewrite <- Har. now rewrite Vb. }
+  split.
+  - destruct (plate_uniform (s_rows a ++ s_rows b)) eqn:E.
+    + destruct (mk_screen_total (s_rows a ++ s_rows b) (s_arity a) (s_ctrl a) (conj HA E)) as (s & Hs). rewrite Hs.
+      unfold res_rows. cbn [res_bind]. now rewrite (proj1 (mk_screen_rows _ _ _ _ Hs)).
+    + now rewrite (mk_screen_not_uniform _ _ _ HA E).
+  - intros s Hs. split; [eapply mk_screen_fresh; exact Hs|]. apply mk_screen_rows in Hs. tauto.
+Qed.
+
+(* ---------------- subset / to_screen ---------------- *)
+Lemma select_mask_filter {A} (f : A -> bool) l : select (map f l) l = filter f l.
+Proof. induction l as [|x l IH]; cbn [map select filter]; [reflexivity|]. now rewrite IH. Qed.
+
+(* Screen.subset(v), v a bool array of the screen's length: the view whose rows are subset_of's *)
+Theorem src_screen_subset_is_subset_of : forall (t : Z) (p : screen) (v : bvec), length v = screen_size p ->
+  exists w, src_screen_subset (t, p) (true, v) = Ok w /\ view_rows w = subset_of (s_rows p) v /\
+            v_tag w = t /\ v_parent w = p /\ v_sel w = v /\ view_ok w.
+Proof.
+  intros t p v H. rewrite src_screen_subset_is_model. cbn [fst snd]. rewrite (screen_subset_ok t p v H).
+  eexists. split; [reflexivity|]. unfold view_rows, subset_of, view_ok. cbn [v_sel v_parent v_tag]. auto.
+Qed.
+
+(* ScreenSubset.to_screen() on a view of a valid screen: never refused; the new screen's rows are the selected rows
+   (Retro.to_screen is the identity on them), and it is a fresh screen of the parent's arity and control name *)
+Theorem src_to_screen_is_retro_to_screen : forall v : view, screen_valid (v_parent v) ->
+  exists s, src_to_screen v = Ok s /\ s_rows s = Retro.to_screen (subset_of (s_rows (v_parent v)) (v_sel v)) /\
+            fresh_screen s /\ s_arity s = s_arity (v_parent v) /\ s_ctrl s = s_ctrl (v_parent v).
+Proof.
+  intros v Hv. rewrite src_to_screen_is_model. destruct (to_screen_total v Hv) as (s & Hs). exists s. split; [exact Hs|].
+  pose proof (mk_screen_fresh _ _ _ _ Hs) as Hf. apply to_screen_rows in Hs. destruct Hs as (H1 & H2 & H3 & _).
+  unfold Retro.to_screen, subset_of. rewrite H1. auto.
+Qed.
+
+(* ---------------- subset_unobserved / subset_observed ---------------- *)
+Lemma existsb_id_map_filter {A} (f : A -> bool) l : existsb (fun b : bool => b) (map f l) = negb (is_nil (filter f l)).
+Proof. induction l as [|x l IH]; cbn [map existsb filter]; [reflexivity|]. destruct (f x); [reflexivity | exact IH]. Qed.
+
+Lemma is_nil_same {A} (l : list A) : PyRt.is_nil l = Retro.is_nil l.
+Proof. destruct l; reflexivity. Qed.
+
+Theorem src_subset_unobserved_is_retro : forall (t : Z) (p : screen), screen_wf p ->
+  exists o, src_subset_unobserved (t, p) = Ok o /\ option_map view_rows o = Retro.subset_unobserved (s_rows p) /\
+            (forall w, o = Some w -> v_tag w = t /\ v_parent w = p /\ view_ok w).
+Proof.
+  intros t p (_ & _ & HR & _). rewrite src_subset_unobserved_is_model. cbn [fst snd].
+  unfold Views.subset_unobserved, Retro.subset_unobserved, unobserved, screen_mask. rewrite map_map, existsb_id_map_filter.
+  destruct (filter (fun r => negb (r_mask r)) (s_rows p)) as [|r0 rest] eqn:E; cbn [PyRt.is_nil Retro.is_nil negb opt_result].
+  - exists None. repeat split; discriminate.
+  - rewrite screen_subset_ok by (now rewrite map_length). cbn [res_bind]. eexists. split; [reflexivity|].
+    cbn [option_map]. unfold view_rows. cbn [v_sel v_parent]. rewrite select_mask_filter, E. split; [reflexivity|].
+    intros w [= <-]. unfold view_ok. cbn [v_sel v_parent v_tag]. now rewrite map_length.
+Qed.
+
+Theorem src_subset_observed_is_retro : forall (t : Z) (p : screen), screen_wf p ->
+  exists o, src_subset_observed (t, p) = Ok o /\ option_map view_rows o = Retro.subset_observed (s_rows p) /\
+            (forall w, o = Some w -> v_tag w = t /\ v_parent w = p /\ view_ok w).
+Proof.
+  intros t p (_ & _ & HR & _). rewrite src_subset_observed_is_model. cbn [fst snd].
+  unfold Views.subset_observed, Retro.subset_observed, observed, screen_mask. rewrite existsb_id_map_filter.
+  destruct (filter r_mask (s_rows p)) as [|r0 rest] eqn:E; cbn [PyRt.is_nil Retro.is_nil negb opt_result].
+  - exists None. repeat split; discriminate.
+  - rewrite screen_subset_ok by (now rewrite map_length). cbn [res_bind]. eexists. split; [reflexivity|].
+    cbn [option_map]. unfold view_rows. cbn [v_sel v_parent]. rewrite select_mask_filter, E. split; [reflexivity|].
+    intros w [= <-]. unfold view_ok. cbn [v_sel v_parent v_tag]. now rewrite map_length.
+Qed.
+
+(* ---------------- is_observed ---------------- *)
+(* screen.is_observed (C13_INITIAL_WRAPPER: `forallb r_mask`) and plate.is_observed (C11_BALANCED_HOLDOUT: [vec_observed]) *)
+Theorem src_is_observed_is_retro :
+  (forall s : pyscreen, src_screen_is_observed s = Ok (forallb r_mask (s_rows (snd s)))) /\
+  (forall v : view, src_view_is_observed v = Ok (vec_observed (v_sel v) (s_rows (v_parent v)))).
+Proof.
+  split; [intros s; exact (proj1 (src_screen_props_are_model s))|].
+  intros v. rewrite (proj1 (proj2 (src_view_props_are_model v))). unfold view_is_observed, view_mask, vec_observed.
+  now rewrite select_map, forallb_map.
+Qed.
+
+(* ---------------- unique_sample_ids / n_unique_samples ---------------- *)
+(* on a screen whose sample ids are fresh (any to_screen() / combine result - what every generator and smoother is handed):
+   the unique sample ids are 0 .. k-1, k the number of distinct sample names; id j stands for the j-th name of
+   [sample_names] (the list the Retro vocabulary iterates over instead): the rows with sample id j are the rows of that sample *)
+Theorem src_unique_sample_ids_are_sample_names : forall s : pyscreen, sample_ids_fresh (snd s) ->
+  let names := sample_names (s_rows (snd s)) in
+  src_screen_unique_sample_ids s = Ok (map Z.of_nat (seq 0 (length names))) /\
+  src_screen_n_unique_samples s = Ok (zlen names) /\
+  (forall j, j < length names ->
+     map (fun x => (x =? Z.of_nat j)%Z) (s_sids (snd s)) = map (in_sample (nth j names [])) (s_rows (snd s))).
+Proof.
+  intros s (m & Hm) names. pose proof (fresh_ids_are_ranks _ _ _ _ Hm) as Hr.
+  destruct (src_screen_props_are_model s) as (_ & _ & H3 & H4 & _). rewrite H3, H4. unfold screen_unique_sids.
+  unfold names, sample_names. set (sn := map r_sample (s_rows (snd s))) in *. rewrite Hr.
+  pose proof (ranks_sorted_unique sn) as Hs. cbv zeta in Hs. rewrite Hs.
+  split; [reflexivity|]. split; [unfold zlen; now rewrite map_length, seq_length|].
+  intros j Hj. pose proof (rank_eqb_name sn j) as He. cbv zeta in He. rewrite He by exact Hj.
+  unfold sn. rewrite map_map. reflexivity.
+Qed.
